@@ -275,7 +275,9 @@ def sympyStep (g : AGate) : Step SyGate :=
   | .CCX, w | .MCX _, w =>
     match w.getLast? with
     | none => .fail "IndexError"
-    | some t => .emit (.CGateX w.dropLast t)
+    | some t =>
+      -- sympy's `CGate` needs at least one control (`max()` of an empty sequence)
+      if w.dropLast = [] then .fail "ValueError" else .emit (.CGateX w.dropLast t)
   | .Barrier, _ | .Nop, _ => .skip
   | _, _ => .fail "unhandled"
 
